@@ -27,8 +27,18 @@ def _nn(qd):
     return mk
 
 
+def _lr(qd):
+    def mk(L, p):
+        # long-range Hermitian Hamiltonian with spectator sites, compiled from operator chains (seeded by the generic parameters)
+        r = np.random.default_rng(abs(int(p[0] * 1e9)) % (2 ** 32))
+        return gen.long_range_hamiltonian(r, np.array(qd), L, cplx=bool(int(abs(p[0]) * 1e6) % 2))
+    return mk
+
+
 MODELS = {
     'nn2q': (_nn([1, -1]), [1, -1]),
+    'lr2q': (_lr([1, -1]), [1, -1]),
+    'lr3q': (_lr([1, 0, -1]), [1, 0, -1]),
     'nn3': (_nn([0, 0, 0]), [0, 0, 0]),
     'herm2': (_herm_cf(2), [0, 0]),
     'herm3': (_herm_cf(3), [0, 0, 0]),
@@ -68,7 +78,7 @@ for _name, (_mk, _qd) in MODELS.items():
             continue
         for _q in sector_list(_qd, _L):
             CASES.append((_name, _L, _q))
-QUICK_CASES = [c for c in CASES if c[1] <= 4 or (c[1] == 6 and c[0] in ('xxz', 'nn2q'))]      # L = 6, d = 2: first size whose central bonds mix left- and right-enumerated sectors
+QUICK_CASES = [c for c in CASES if c[1] <= 4 or (c[1] == 6 and c[0] in ('xxz', 'nn2q')) or (c[1] in (5, 6) and c[0] == 'lr2q')]      # L = 6, d = 2: first size whose central bonds mix left- and right-enumerated sectors
 
 
 def make_exact(cases):
